@@ -79,6 +79,9 @@ NUMERIC = [
     'range(1000000000000000000).sample(999999999999999999).len()', '1.5.format(".3000000000f")', '1.5.format(".70000f").len()', '1.5.format(".65535f").len()', '1.5.format(".65536e").len()', '1.5.format(".99999%").len()',
     '[1, 2, 3].to_generator().n_largest(1000000000000000000)' if False else '[1, 2, 3].take(1000000000000000000).len()', '[1, 2, 3].to_generator().take(1000000000000000000).len()',
     'permutation(300000000, 18446744073709551615, 300000000)',
+    # buffers inside adaptors grow with what they see, not with what they return
+    '[7].to_generator().repeat().windows(300000000).take(1).to_array()', '[7].to_generator().repeat().take(300000000).group().take(1).to_array()',
+    '[7].to_generator().repeat().take(300000000).group((a: int, b: int)->{ true }).take(1).to_array().len()',
 ]
 HANG_KNOWN = ['geometric_distribution(1.0).random()', 'negative_binomial_distribution(0.5, 1.0).sample(40)', 'students_t_distribution(0.5, 1000.0, 0.5).sample(40)',
               'hypergeometric_distribution(40000000000, 20000000000, 20000000000).cdf(3000000000)', 'binomial_distribution(999999999999, 0.5).sample(1)']
@@ -196,7 +199,7 @@ def run(tier):
                  'user-function call begins; non-trivial = distinct cases that reached evaluation' % STEP_TIMEOUT)
     cs = cases(tier)
     rep.bounds = {'cases': len(cs), 'limits': LIMITS, 'size_limit_variants': ['none (bounded-memory cases only)', SIZE], 'watchdog_s': STEP_TIMEOUT}
-    MEM = ('9223372036854775807).to_array', '1000000000000', '10000000000', '10 ** (10 ** 6)', 'pow(2, 1000000000)', 'factorial(1000000)', '100000)', '[" * 100000', '100000, 3')
+    MEM = ('300000000).', '9223372036854775807).to_array', '1000000000000', '10000000000', '10 ** (10 ** 6)', 'pow(2, 1000000000)', 'factorial(1000000)', '100000)', '[" * 100000', '100000, 3')
     for variant in ('size', 'nosize'):
         limits = dict(LIMITS)
         if variant == 'size':
